@@ -232,6 +232,16 @@ func (d *Decoder) decompress(claimedUncompressedSize int, rd io.Reader) (decompr
 	if err != nil {
 		return nil, fmt.Errorf("error decompressing payload: %w", err)
 	}
+	// The stream must end exactly at the claimed size. Reading on until EOF also
+	// makes the zlib reader verify the Adler-32 checksum, which it only does once
+	// it has seen the end of the stream.
+	var extra [1]byte
+	if n, err := io.ReadFull(d.zrd, extra[:]); n != 0 {
+		return nil, errs.NewSilentErr("compressed payload inflates to more than the claimed %d bytes",
+			claimedUncompressedSize)
+	} else if err != io.EOF {
+		return nil, fmt.Errorf("error decompressing payload: %w", err)
+	}
 	return decompressed, d.zrd.Close()
 }
 
